@@ -732,6 +732,12 @@ fn poison_programs() -> Vec<Program<LockFam>> {
 }
 
 pub fn program_set(set: &str) -> Vec<Program<LockFam>> {
+    if set == "highids" {
+        // every k-th program of the quick set with its threads moved to task ids above 16
+        let base = program_set("quick");
+        let k = (base.len() / 60).max(1);
+        return base.iter().enumerate().filter(|(i, p)| i % k == 0 && p.threads.len() <= 4).map(|(_, p)| with_high_ids(p, 16)).collect();
+    }
     if set == "poison" {
         return poison_programs();
     }
